@@ -12,7 +12,7 @@
    What is not proved is kept visible as C06_meta_sem_full and C06_optimize_sem_full. *)
 From CC Require Import Base.Prelude Base.Scalar Base.Ty Base.Shape Graph.Value Graph.IR Graph.Eval Model.Opt
   Proofs.OptBase Proofs.OptSem Proofs.OptSim Proofs.OptFresh Proofs.OptDangling Proofs.OptDup
-  Proofs.OptConst Proofs.OptMeta Proofs.OptMetaSem Proofs.OptProofs.
+  Proofs.OptConst Proofs.OptMeta Proofs.OptMetaSem Proofs.OptPipe Proofs.OptProofs.
 
 (* the chained mapping only relates nodes that every pass still maps *)
 Theorem C06_join_maps_length : forall m1 m2, length (join_maps m1 m2) = length m1.
@@ -233,6 +233,42 @@ Theorem C06_optimize_sem_transport_partial : forall infer nodes o p tape vals,
                    sim nodes (po_nodes p) vals vals' (po_map p)).
 Proof. exact optimize_sem_transport. Qed.
 
+(* The pipeline with hypotheses on the INPUT graph only, for graphs without ArrayToVector, Zip,
+   A2B, B2A (simple_ops) and without tape operations that have a de-duplication key (nokey:
+   no CuckooHash / Shard / Join / Sort / ...): the graph is typed by an inference function infer
+   that gives a Constant the type of its literal (typed_nodes, infer_const), Constant nodes carry
+   the literal's type, constructors and getters carry the builder's types (meta_typed), nodes
+   have fewer than 2^64 dependencies.  Then the optimized graph evaluates under the tape
+   transported stage by stage, every node in the domain of the joined map keeps its value and
+   type, and the new output is the image of the old output and has its value. *)
+Theorem C06_optimize_sem_partial_simple : forall infer nodes o p tape vals,
+  infer_const infer -> typed_nodes infer nodes ->
+  const_typed nodes -> few_deps nodes -> simple_ops nodes -> meta_typed nodes -> nokey nodes ->
+  optimize_graph nodes o = Ok p ->
+  eval_graph_nodes nodes tape = Ok vals ->
+  exists p1 p2 p3 p4,
+    opt_const nodes o = Ok p1 /\ opt_meta (po_nodes p1) (po_output p1) = Ok p2 /\
+    opt_dup (po_nodes p2) (po_output p2) = Ok p3 /\ opt_dangling (po_nodes p3) (po_output p3) = Ok p4 /\
+    exists vals', eval_graph_nodes (po_nodes p)
+                    (transport (po_map p4) (transport (po_map p3) (transport (po_map p2) (transport (po_map p1) tape))))
+                  = Ok vals' /\
+                  sim nodes (po_nodes p) vals vals' (po_map p) /\
+                  exists x j v, o = Some x /\ po_output p = Some j /\ 0 <= x /\ 0 <= j /\
+                                nth_error (po_map p) (Z.to_nat x) = Some (Some j) /\
+                                nth_error vals (Z.to_nat x) = Some v /\ nth_error vals' (Z.to_nat j) = Some v.
+Proof. exact optimize_sem_simple_output. Qed.
+
+(* the constant pass preserves these hypotheses (so they need only be assumed of the input) *)
+Theorem C06_const_preserves_hyps : forall infer nodes o p,
+  const_typed nodes -> opt_const nodes o = Ok p ->
+  const_typed (po_nodes p) /\
+  (few_deps nodes -> few_deps (po_nodes p)) /\
+  (simple_ops nodes -> simple_ops (po_nodes p)) /\
+  (nokey nodes -> nokey (po_nodes p)) /\
+  (infer_const infer -> typed_nodes infer nodes ->
+   typed_nodes infer (po_nodes p) /\ (meta_typed nodes -> meta_typed (po_nodes p))).
+Proof. exact const_preserves. Qed.
+
 Definition C06_optimize_sem_full : Prop := forall infer nodes o p tape vals,
   typed_nodes infer nodes -> const_typed nodes ->
   optimize_graph nodes o = Ok p ->
@@ -339,3 +375,5 @@ Print Assumptions C06_meta_sem_partial.
 Print Assumptions C06_optimize_inputs.
 Print Assumptions C06_optimize_sem_partial.
 Print Assumptions C06_optimize_sem_transport_partial.
+Print Assumptions C06_optimize_sem_partial_simple.
+Print Assumptions C06_const_preserves_hyps.
